@@ -23,6 +23,9 @@ type C20Case struct {
 	LateHide bool `json:"late_hide,omitempty"`
 	// Aliases of the commands (never part of a diagnostic)
 	Aliases [][]string `json:"aliases,omitempty"`
+	// Trail: further tokens after the word (the diagnosis concerns the word:
+	// nothing after an unrecognised command word can be interpreted)
+	Trail []string `json:"trail,omitempty"`
 }
 
 var _ = Register("C20", func() interface{} { return new(C20Case) }, func(c interface{}) string { return c20Oracle(c.(*C20Case)) })
@@ -142,6 +145,9 @@ func genC20(t *rapid.T) *C20Case {
 		}
 		c.Word = string(w)
 	}
+	if c.HasArg && rapid.IntRange(0, 3).Draw(t, "withTrail") == 0 {
+		c.Trail = rapid.SliceOfN(rapid.SampledFrom([]string{"--bogus", "--name", "-v", "x", "--", "--name=1", "-"}), 1, 3).Draw(t, "trail")
+	}
 	return c
 }
 
@@ -196,7 +202,7 @@ func c20Oracle(c *C20Case) string {
 	}
 	var args []string
 	if c.HasArg {
-		args = []string{c.Word}
+		args = append([]string{c.Word}, c.Trail...)
 	}
 	decl := c20Decl(c)
 	if c.LateHide {
@@ -298,6 +304,9 @@ func c20Oracle(c *C20Case) string {
 	}
 	if len(c.Aliases) > 0 {
 		st.Label("commands with aliases")
+	}
+	if len(c.Trail) > 0 {
+		st.Label("tokens after the unrecognised word")
 	}
 	const dym = ", did you mean `"
 	if strings.HasPrefix(rest, dym) && strings.HasSuffix(rest, "'?") {
